@@ -14,6 +14,7 @@ site changes with its uses) is not a mutation, and two mutated statements that a
 compensate and are left undecided.
 """
 import ast
+import copy
 import difflib
 import json
 import os
@@ -343,11 +344,90 @@ def _order_insensitive(loop):
     return bool(acc) and not (reads & acc)
 
 
+class _Subst(ast.NodeTransformer):
+    def __init__(self, mapping):
+        self.mapping = mapping
+
+    def visit_Name(self, n):
+        if isinstance(n.ctx, ast.Load) and n.id in self.mapping:
+            new = self.mapping[n.id]
+            return ast.copy_location(ast.Name(id=new, ctx=ast.Load()) if isinstance(new, str) else copy.deepcopy(new), n)
+        return n
+
+
+def _name_level_mutation(r, c):
+    """Two further single mutations that are only visible at the level of names:
+    * two variables exchanged:  max(atol, rtol * n)  ->  max(rtol, atol * n)
+    * a variable replaced by a numeric literal:  kvs[bdax]  ->  kvs[0]
+    Returns a description or None.  (r: reference component, c: current component, both ast nodes)"""
+    if not isinstance(r, ast.AST) or not isinstance(c, ast.AST):
+        return None
+    rn = sorted({n.id for n in ast.walk(r) if isinstance(n, ast.Name) and isinstance(n.ctx, ast.Load)})
+    cn = {n.id for n in ast.walk(c) if isinstance(n, ast.Name) and isinstance(n.ctx, ast.Load)}
+    if len(rn) > 12:
+        return None
+    if set(rn) == cn:
+        for i, x in enumerate(rn):
+            for y in rn[i + 1:]:
+                sw = _Subst({x: y, y: x}).visit(copy.deepcopy(r))
+                if treecmp.compare(c, sw)[0] == 'equal':
+                    return 'variables %s and %s exchanged' % (x, y)
+    class _Exact(ast.NodeTransformer):
+        n = 0
+
+        def visit_Call(self, node):
+            self.generic_visit(node)
+            try:
+                name = ast.unparse(node.func)
+            except Exception:
+                name = ''
+            if name in ('np.isclose', 'np.allclose', 'numpy.isclose', 'numpy.allclose', 'math.isclose') and len(node.args) == 2 and not node.keywords:
+                self.n += 1
+                return ast.copy_location(ast.Compare(left=node.args[0], ops=[ast.Eq()], comparators=[node.args[1]]), node)
+            return node
+    tr = _Exact()
+    c2 = tr.visit(copy.deepcopy(c))
+    if tr.n and treecmp.compare(c2, r)[0] == 'equal':
+        return 'exact equality replaced by a test with the default tolerances (%d site%s)' % (tr.n, '' if tr.n == 1 else 's')
+    gone = set(rn) - cn
+    if len(gone) <= 1 and cn <= set(rn):
+        consts = []
+        for k in ast.walk(c):
+            if isinstance(k, ast.Constant) and isinstance(k.value, (int, float)) and not isinstance(k.value, bool) and k.value not in consts:
+                consts.append(k.value)
+        for x in (sorted(gone) or rn):
+            for k in consts[:6]:
+                # one occurrence replaced (the others stay) or all of them
+                occ = [n for n in ast.walk(r) if isinstance(n, ast.Name) and isinstance(n.ctx, ast.Load) and n.id == x]
+                for which in range(len(occ)):
+                    rr = copy.deepcopy(r)
+                    occ2 = [n for n in ast.walk(rr) if isinstance(n, ast.Name) and isinstance(n.ctx, ast.Load) and n.id == x]
+                    tgt = occ2[which]
+                    for parent in ast.walk(rr):
+                        for field, val in ast.iter_fields(parent):
+                            if val is tgt:
+                                setattr(parent, field, ast.Constant(value=k))
+                            elif isinstance(val, list):
+                                for idx, item in enumerate(val):
+                                    if item is tgt:
+                                        val[idx] = ast.Constant(value=k)
+                    if treecmp.compare(c, rr)[0] == 'equal':
+                        return 'variable %s replaced by the constant %r' % (x, k)
+    return None
+
+
 def classify(ref_rec, cur_rec):
     """('equal'|'mutation'|'different', description)"""
     if {ref_rec[0], cur_rec[0]} == {'break', 'continue'}:
         # the rest of the loop is skipped instead of the rest of the iteration (or the other way round)
         return 'mutation', '%s replaced by %s' % (ref_rec[0], cur_rec[0])
+    if ref_rec[0] == cur_rec[0] == 'assign' and len(ref_rec[1]) == len(cur_rec[1]) + 1 and len(cur_rec[1]) >= 2:
+        # x = y = E  ->  y = E : one target of a multiple assignment dropped (the caller checks that x is not assigned elsewhere instead)
+        rt, ct = ref_rec[1][:-1], cur_rec[1][:-1]
+        if treecmp.compare(cur_rec[1][-1], ref_rec[1][-1])[0] == 'equal':
+            missing = [t for t in rt if not any(treecmp.compare(c_, t)[0] == 'equal' for c_ in ct)]
+            if len(missing) == 1 and isinstance(missing[0], ast.Name):
+                return 'mutation', 'target %s of the multiple assignment dropped' % missing[0].id
     if ref_rec[0] != cur_rec[0] or len(ref_rec[1]) != len(cur_rec[1]):
         return 'different', None
     muts = []
@@ -406,6 +486,10 @@ def classify(ref_rec, cur_rec):
                 and _order_insensitive(ref_rec[2]) and _order_insensitive(cur_rec[2]):
             # the iteration order of a loop that only accumulates into sets (|= set(...), .add) does not matter
             v, d = 'equal', None
+        if v == 'different' and ref_rec[0] not in ('def',):
+            d3 = _name_level_mutation(r, c)
+            if d3:
+                v, d = 'mutation', d3
         if v == 'equal':
             continue
         if v == 'mutation':
@@ -449,6 +533,35 @@ def diff_function(ref_fn, cur_fn):
         if v == 'mutation' and d.startswith('variable '):
             parts = d.split()
             if len(parts) >= 5 and frozenset((parts[1], parts[4])) in aliases:
+                v = 'different'
+        if v == 'mutation' and d.startswith('target ') and 'multiple assignment dropped' in d:
+            x = d.split()[1]
+
+            def _nassign(fn_):
+                return sum(1 for s_ in ast.walk(fn_) if isinstance(s_, (ast.Assign, ast.AugAssign, ast.AnnAssign))
+                           and any(isinstance(t, ast.Name) and t.id == x for tt in (s_.targets if isinstance(s_, ast.Assign) else [s_.target]) for t in ast.walk(tt)))
+            if _nassign(cur_fn) >= _nassign(ref_fn):
+                v = 'different'     # assigned by another statement now (the chain was split)
+        if v == 'mutation' and d.startswith('variables ') and d.endswith(' exchanged'):
+            parts = d.split()
+            if frozenset((parts[1], parts[3])) in aliases:
+                v = 'different'
+        if v == 'mutation' and d.startswith('variable ') and ' replaced by the constant ' in d:
+            x = d.split()[1]
+            # a name with a literal binding (x = 0, a default value, a loop over a literal) may simply have been propagated
+            lit = False
+            for fn_ in (ref_fn, cur_fn):
+                for s_ in ast.walk(fn_):
+                    if isinstance(s_, ast.Assign) and any(isinstance(t, ast.Name) and t.id == x for t in s_.targets) and isinstance(s_.value, ast.Constant):
+                        lit = True
+                    if isinstance(s_, ast.For) and any(isinstance(t, ast.Name) and t.id == x for t in ast.walk(s_.target)):
+                        lit = True
+                a_ = fn_.args
+                for arg, dflt in zip((a_.posonlyargs + a_.args)[::-1], a_.defaults[::-1]):
+                    if arg.arg == x and isinstance(dflt, ast.Constant):
+                        lit = True
+            still_bound = any(isinstance(n, ast.Name) and n.id == x for n in ast.walk(cur_fn)) or any(a.arg == x for a in ast.walk(cur_fn) if isinstance(a, ast.arg))
+            if lit or not still_bound:
                 v = 'different'
         if v == 'mutation' and ('disjunct added' in d or 'conjunct added' in d) and isinstance(r[2], ast.If) and isinstance(c[2], ast.If):
             # two statements merged: `if A: X` + `if B: X`  ->  `if A or B: X`   /   `if A: if B: X`  ->  `if A and B: X`
@@ -543,6 +656,152 @@ def diff_function(ref_fn, cur_fn):
     return findings, unpaired, len(R), len(C)
 
 
+
+# ---------------------------------------------------------------- effect agreement with the reference
+def _param_writes(fn):
+    """{parameter position: [write records]} for the definite in-place writes of fn whose storage is rooted in a parameter
+    (caller-owned).  *args / **kwargs are fresh per call and never count; neither does the receiver."""
+    from . import effects
+    a = fn.args
+    pos = [x.arg for x in a.posonlyargs + a.args + a.kwonlyargs]
+    out = {}
+    try:
+        ws = effects.external_writes(fn)
+    except Exception:
+        return None, pos
+    for w in ws:
+        if not w['definite']:
+            continue
+        if w['kind'].endswith(':attr') and isinstance(w.get('base'), ast.Name) and w['base'].id in ('self', 'cls'):
+            continue
+        for r in w['external']:
+            if not r.startswith('param:'):
+                continue
+            name = r[6:]
+            if name in ('self', 'cls') or name not in pos:
+                continue
+            if not set(w['roots']) <= {r, 'fresh'}:
+                continue            # storage of unknown origin on some path: no definite verdict
+            out.setdefault(pos.index(name), []).append(w)
+    return out, pos
+
+
+def effect_diff(ref_fn, cur_fn):
+    """In-place writes to a caller's argument that the confirmed function does not perform on that argument at all."""
+    rw, rpos = _param_writes(ref_fn)
+    cw, cpos = _param_writes(cur_fn)
+    if rw is None or cw is None or len(rpos) != len(cpos):
+        return []
+    res = []
+    for i, ws in sorted(cw.items()):
+        if i in rw:
+            continue
+        # the reference must not have written this parameter even possibly (non-definite writes count as "it did")
+        from . import effects
+        try:
+            poss = any(('param:' + rpos[i]) in w['roots'] for w in effects.Effects(ref_fn).writes)
+        except Exception:
+            poss = True
+        if poss:
+            continue
+        res.append((cpos[i], ws[0]))
+    return res
+
+
+def default_diff(ref_fn, cur_fn):
+    """[(parameter, old, new)] for declared defaults that are numbers (or booleans) in both versions and differ in value."""
+    def table(fn):
+        a = fn.args
+        pos = a.posonlyargs + a.args
+        t = {}
+        for arg, d in zip(pos[::-1], a.defaults[::-1]):
+            t[arg.arg] = d
+        for arg, d in zip(a.kwonlyargs, a.kw_defaults):
+            if d is not None:
+                t[arg.arg] = d
+        return t
+
+    def num(d):
+        if isinstance(d, ast.UnaryOp) and isinstance(d.op, ast.USub) and isinstance(d.operand, ast.Constant) and isinstance(d.operand.value, (int, float)):
+            return -d.operand.value
+        if isinstance(d, ast.Constant) and isinstance(d.value, (int, float, bool)):
+            return d.value
+        return None
+    rt, ct = table(ref_fn), table(cur_fn)
+    out = []
+    for name, rd in rt.items():
+        if name not in ct:
+            continue
+        a, b = num(rd), num(ct[name])
+        if a is None or b is None or isinstance(a, bool) != isinstance(b, bool):
+            continue
+        if a != b:
+            out.append((name, a, b, ct[name]))
+    return out
+
+
+def ignored_params(ref_fn, cur_fn):
+    """Parameters (same name in both versions) that the confirmed function reads and the current one never mentions."""
+    def reads(fn):
+        return {n.id for n in ast.walk(fn) if isinstance(n, ast.Name) and isinstance(n.ctx, ast.Load)}
+    def params(fn):
+        a = fn.args
+        return [x.arg for x in a.posonlyargs + a.args + a.kwonlyargs]
+    rr, cr = reads(ref_fn), reads(cur_fn)
+    out = []
+    for p_ in params(ref_fn):
+        if p_ in ('self', 'cls') or p_ not in params(cur_fn):
+            continue
+        if p_ in rr and p_ not in cr:
+            # not merely renamed on entry / captured by a nested helper under the same name: no mention at all
+            if not any(isinstance(n, ast.Name) and n.id == p_ for n in ast.walk(cur_fn)):
+                out.append(p_)
+    return out
+
+
+def exit_order_swaps(ref_fn, cur_fn):
+    """`L.append(e); if T: break/return`  (L read after the loop)  ->  `if T: break/return; L.append(e)`:
+    the last update before the exit is lost.  Returns [(append node in cur, description)]."""
+    def exits_only(ifnode):
+        return isinstance(ifnode, ast.If) and not ifnode.orelse and len(ifnode.body) >= 1 and isinstance(ifnode.body[-1], (ast.Break, ast.Return)) \
+            and all(isinstance(b, (ast.Break, ast.Return, ast.Expr)) for b in ifnode.body)
+
+    def is_update(st):
+        if isinstance(st, ast.Expr) and isinstance(st.value, ast.Call) and isinstance(st.value.func, ast.Attribute) \
+                and st.value.func.attr in ('append', 'extend', 'add') and isinstance(st.value.func.value, ast.Name):
+            return st.value.func.value.id
+        return None
+
+    def blocks(fn):
+        for n in ast.walk(fn):
+            for f_ in ('body', 'orelse', 'finalbody'):
+                b = getattr(n, f_, None)
+                if isinstance(b, list) and b and isinstance(b[0], ast.stmt):
+                    yield b
+    found = []
+    ref_pairs = []
+    for b in blocks(ref_fn):
+        for i in range(len(b) - 1):
+            name = is_update(b[i])
+            if name and exits_only(b[i + 1]):
+                ref_pairs.append((b[i], b[i + 1], name))
+    if not ref_pairs:
+        return found
+    for b in blocks(cur_fn):
+        for i in range(len(b) - 1):
+            name = is_update(b[i + 1])
+            if name and exits_only(b[i]):
+                for ru, rx, rname in ref_pairs:
+                    if rname == name and treecmp.compare(b[i + 1].value, ru.value)[0] == 'equal' and treecmp.compare(b[i].test, rx.test)[0] == 'equal':
+                        # the container must be observable afterwards (returned / read later)
+                        later = any(isinstance(n, ast.Name) and n.id == name and isinstance(n.ctx, ast.Load) and getattr(n, 'lineno', 0) > b[i + 1].end_lineno
+                                    for n in ast.walk(cur_fn))
+                        if later:
+                            found.append((b[i + 1], '`%s` is recorded after the exit `if %s` it used to precede: the value of the final iteration is never recorded'
+                                          % (src(b[i + 1])[:60], src(b[i].test)[:50])))
+    return found
+
+
 def load_reference(prop):
     path = os.path.join(HERE, 'reference', prop + '.json')
     if not os.path.exists(path):
@@ -570,6 +829,19 @@ def run(ctx, rule, min_functions=1):
             ctx.undecided(rule, qual, 'reference not parsable', cur.node, 'reference entry is not valid Python')
             continue
         findings, unpaired, nr, nc = diff_function(ref_fn, cur.node)
+        for pname in ignored_params(ref_fn, cur.node):
+            ctx.violated(rule, qual, 'parameter `%s` is never read' % pname, cur.node,
+                         'the confirmed function reads its parameter `%s`; the current one accepts it and ignores it (an option that is silently dropped)' % pname)
+        for node, msg in exit_order_swaps(ref_fn, cur.node):
+            ctx.violated(rule, qual, 'update moved behind an exit: ' + src(node)[:70], node, msg)
+        for pname, a, b, node in default_diff(ref_fn, cur.node):
+            ctx.violated(rule, qual, 'default value of parameter `%s`' % pname, cur.node,
+                         'the declared default of `%s` is %r where the confirmed function declares %r: every caller that relies on the '
+                         'default now gets a different computation (numeric constant changed)' % (pname, b, a))
+        for pname, w in effect_diff(ref_fn, cur.node):
+            ctx.violated(rule, qual, 'in-place write to the caller\'s argument `%s`: %s' % (pname, src(w['node']).split('\n')[0][:90]), w['node'],
+                         'the confirmed function never writes to the storage of its parameter `%s`; now `%s` (%s) modifies it in place, so the '
+                         'caller\'s object changes behind its back' % (pname, w['target'][:60], w['kind']))
         bad = [f for f in findings if f[0] == 'mutation']
         other = [f for f in findings if f[0] != 'mutation']
         if not findings and not unpaired:
